@@ -11,6 +11,7 @@ are in `P2/Lemmas/C20.lean`.  This file holds the property theorems only.
 import P2.Model.SyncProto
 import P2.Model.SyncText
 import P2.Lemmas.C20
+import P2.Extracted.C20
 
 namespace P2.C20
 open P2.Sync
@@ -209,5 +210,23 @@ example : (curCfg [(0, [0])] 8 true).fixDone = true := rfl
 /-- the receiving side of `c20_live_clean`: it has read exactly the four messages a peer sent -/
 example : (run (curCfg [(0, [0])] 8 true) demo).recvd
     = [RecvItem.msg (Msg.have []), .msg (Msg.preSync 1 90), .msg (Msg.op ⟨9, 90⟩), .msg Msg.done] := by decide
+
+/-! ## Tie to the current source text (regenerated into `P2/Extracted/C20.lean` on every run) -/
+
+/-- The `Done` logic of `log_sync.rs` as it reads *now*, clause by clause of `P2.Sync.step`:
+    `SendPreSync` sends `PreSync` iff `outbound_bytes > 0` and otherwise sets `sync_done_sent` and
+    sends `Done` (`.sendPre`); entering `Sync`, `remote_needs` is replaced by the empty map exactly
+    under the guard `sync_done_sent` (`enterSync`, `fixDone`); the final `Done` goes out when the
+    last of `remote_needs.len()` authors is finished and then sets `sync_done_sent` (`.sendDone`).
+    Weakening the guard (e.g. `sync_done_sent && sync_done_received`) breaks this theorem. -/
+theorem c20_extracted_done_logic :
+    P2.Extracted.C20.preSyncCond = "outbound_bytes > 0" ∧
+    P2.Extracted.C20.doneBranch = "sync_done_sent = true; LogSyncMessage::Done" ∧
+    P2.Extracted.C20.fixCond = "sync_done_sent" ∧
+    P2.Extracted.C20.fixValue = "LogRanges::default()" ∧
+    P2.Extracted.C20.sendLogsLen = "remote_needs.len()" ∧
+    P2.Extracted.C20.lastBatchCond = "send_logs_len == 0" ∧
+    P2.Extracted.C20.afterFinalDone = "sync_done_sent = true;" :=
+  ⟨rfl, rfl, rfl, rfl, rfl, rfl, rfl⟩
 
 end P2.C20
